@@ -113,7 +113,7 @@ func init() {
 			"copies through deepCopy (R-FRESH, SSA origin of the stored slice).",
 		NotDecided:  "That Slice copies the right elements (value-level).",
 		Assumptions: []string{"no reflection/unsafe reaches evaluator values (checked by R-TIMESOURCE for unsafe)"},
-		Rules:       []*Rule{ruleImmut, ruleFresh, ruleEvalMisc, ruleVMFresh},
+		Rules:       []*Rule{ruleImmut, ruleFresh, ruleEvalMisc, ruleVMFresh, ruleScopeChain},
 	})
 	Register(&Property{
 		ID: "C12",
@@ -158,10 +158,10 @@ func init() {
 			"pass a return on, calls unwrap the return signal, a zero step is rejected before the first iteration, the range operand is evaluated " +
 			"once (R-SIGNAL); every loop iteration re-evaluates its condition block through eval (R-YIELD loop clause); the map ranger iterates a " +
 			"private snapshot and every loop activation has iteration state of its own (R-FRESH); a number of the program becomes a loop count or index only through a NaN/fraction-safe conversion (R-F2I); " +
-			"the loop variable enters the static scope after the range operands are parsed (R-DECLCHECK).",
+			"the loop variable enters the static scope after the range operands are parsed (R-DECLCHECK); a declaration binds in the current run-time scope, look-ups and assignments take the innermost scope that has the name (R-SCOPECHAIN).",
 		NotDecided:  "The arithmetic of numeric ranges and which elements are visited; the parser's static scope tracking (see C05).",
 		Assumptions: []string{},
-		Rules:       []*Rule{ruleScopePairEval, ruleSignal, ruleFresh, ruleScopePairParser, ruleNaNGuard, f2iRule("pkg/evaluator", 4), ruleDeclCheck},
+		Rules:       []*Rule{ruleScopePairEval, ruleSignal, ruleFresh, ruleScopePairParser, ruleNaNGuard, f2iRule("pkg/evaluator", 4), ruleDeclCheck, ruleScopeChain},
 	})
 }
 
